@@ -63,6 +63,7 @@ class StmtMixin:
             if isinstance(s, ast.Expr) and isinstance(s.value, ast.Constant) and isinstance(s.value.value, str):
                 continue  # docstring
             nxt = []
+            live = self.run_ghost_before(s, live, cx)
             for cur in live:
                 for s2, oc in self.exec_stmt(s, cur, cx):
                     if oc[0] == "normal":
@@ -88,6 +89,17 @@ class StmtMixin:
             if txt.startswith(anchor[6:]):
                 outs = self.exec_ghost(code, outs, cx)
         return outs
+
+    def run_ghost_before(self, stmt, states, cx):
+        c = cx.contract
+        if c is None or not c.ghost or cx.spec or cx.fn_node is None:
+            return states
+        if isinstance(stmt, ast.Raise):
+            rs = sorted([n for n in ast.walk(cx.fn_node) if isinstance(n, ast.Raise)], key=lambda n: (n.lineno, n.col_offset))
+            key = "before:raise#%d" % (rs.index(stmt) + 1) if stmt in rs else None
+            if key in c.ghost:
+                return self.exec_ghost(c.ghost[key], states, cx)
+        return states
 
     def exec_ghost(self, code, states, cx):
         body = ast.parse("\n".join(code) if isinstance(code, list) else code).body
@@ -579,20 +591,30 @@ class StmtMixin:
 
     def inv_check(self, lc, k, st, cx, phase, extra_env):
         env_saved = st.env
+        needs = lc.get("needs", {})
         for lab, ex in _labelled(lc.get("invariant", [])):
             s2 = st.copy()
             s2.env = dict(env_saved)
             s2.env.update(extra_env)
             g = self.eval_spec(ex, s2, s2.env, cx.pre_fn if hasattr(cx, "pre_fn") else cx.pre, cx.contract.module)
             st.pc.extend(s2.pc[len(st.pc):])
-            self.oblige(st, truth(g), "loop%d.%s" % (k, phase), lab)
+            if phase == "preserved" and lab in needs:
+                # opaque / reveal: only the listed invariant conjuncts are given to the solver for this obligation
+                keep = set(needs[lab])
+                sub = st.copy()
+                sub.pc = [p for p in st.pc if self.inv_tags.get(p.get_id()) is None or self.inv_tags[p.get_id()] in keep]
+                self.oblige(sub, truth(g), "loop%d.%s" % (k, phase), lab)
+            else:
+                self.oblige(st, truth(g), "loop%d.%s" % (k, phase), lab)
 
     def inv_assume(self, lc, st, cx, extra_env):
         for lab, ex in _labelled(lc.get("invariant", [])):
             env = dict(st.env)
             env.update(extra_env)
             g = self.eval_spec(ex, st, env, cx.pre_fn if hasattr(cx, "pre_fn") else cx.pre, cx.contract.module)
-            st.pc.append(truth(g))
+            t = truth(g)
+            self.inv_tags[t.get_id()] = lab
+            st.pc.append(t)
 
     def symbolic_for(self, s, itv, st, cx):
         lc, k = self.loop_contract(s, cx)
@@ -601,7 +623,7 @@ class StmtMixin:
         if cx.spec:
             raise Unsupported("symbolic loop in spec code")
         n, elem = self.iter_view(itv, st)
-        mods = assigned_names(s.body) | assigned_names([ast.Assign(targets=[s.target], value=ast.Constant(0), lineno=0)])
+        mods = assigned_names(s.body) | assigned_names([ast.Assign(targets=[s.target], value=ast.Constant(0), lineno=0)]) | ghost_names(lc)
         tnames = assigned_names([ast.Assign(targets=[s.target], value=ast.Constant(0), lineno=0)])
         hf = list(lc.get("modifies", []))
         # 1. invariant holds on entry
@@ -614,6 +636,7 @@ class StmtMixin:
         head.pc.append(z3.And(i >= 0, i <= n))
         self.inv_assume(lc, head, cx, {"_i": VInt(i), "_n": VInt(n)})
         outs = []
+        prev_i = st.env.get("_i")
         body = head.copy()
         body.pc.append(i < n)
         if self.feasible(body):
@@ -628,6 +651,8 @@ class StmtMixin:
                         self.inv_check(lc, k, s2, cx, "preserved", {"_i": VInt(i + 1), "_n": VInt(n)})
                     elif oc[0] == "break":
                         s2.env.pop("_i", None)
+                        if prev_i is not None:
+                            s2.env["_i"] = prev_i
                         outs.append((s2, ("normal",)))
                     else:
                         outs.append((s2, oc))
@@ -635,6 +660,8 @@ class StmtMixin:
         ex = head.copy()
         ex.pc.append(i == n)
         ex.env.pop("_i", None)
+        if prev_i is not None:
+            ex.env["_i"] = prev_i
         if s.orelse:
             outs.extend(self.exec_block(s.orelse, ex, cx))
         else:
@@ -646,7 +673,7 @@ class StmtMixin:
         lc, k = self.loop_contract(s, cx)
         if lc is None:
             raise Unsupported("while loop at line %d of %s has no invariant (loop #%s)" % (s.lineno, cx.fn, k))
-        mods = assigned_names(s.body)
+        mods = assigned_names(s.body) | ghost_names(lc)
         hf = list(lc.get("modifies", []))
         self.inv_check(lc, k, st, cx, "entry", {})
         head = st.copy()
@@ -677,11 +704,23 @@ class StmtMixin:
                     else:
                         outs.append((s2, oc))
             if f is not None:
+                for lx in lc.get("exit_lemmas", []):
+                    f.pc.append(truth(self.eval_spec(lx, f, f.env, cx.pre, cx.contract.module)))
                 if s.orelse:
                     outs.extend(self.exec_block(s.orelse, f, cx))
                 else:
                     outs.append((f, ("normal",)))
         return outs
+
+
+def ghost_names(lc):
+    "names assigned by ghost code attached to a loop (also by ghost code of loops nested inside: listed in 'ghost_mods')"
+    out = set(lc.get("ghost_mods", []))
+    for key in ("ghost_begin", "ghost_end"):
+        code = lc.get(key)
+        if code:
+            out |= assigned_names(ast.parse("\n".join(code) if isinstance(code, list) else code).body)
+    return out
 
 
 def _labelled(items):
